@@ -20,7 +20,7 @@ RULE = ('cases = scenario {reject with (result, source, reason): all 60 standard
         'multi-fragment exchange} x seeded schedule and segmentation; fault configuration adds '
         'RST and provider stalls; non-trivial = every case (each one is a full association); '
         'distinct = distinct (scenario, values, point)'
-        '; plus: peer answers+aborts in one write; responses in flight at a normal exit; release never answered; exit after a peer-requested release')
+        '; plus: peer answers+aborts in one write; responses in flight at a normal exit; release never answered; exit after a peer-requested release; exit (normal or by error) with 70-400 responses of the peer still unread')
 ASSUMPTIONS = ['exceptions at the receiving side are observed by wrapping '
                'Association._get_dul_message from outside',
                'under an injected RST only "no wrong values" is required',
@@ -71,6 +71,12 @@ def cases(tier, seed):
     for i in range(12 if tier == 'quick' else 300):
         yield dict(kind='exit-normal-release-unanswered', first=rnd.random() < 0.5,
                    tmo=rnd.choice([1.0, 5.0, 20.0]), seed=seed * 19 + i)
+    # the user leaves the association while most of a long result is still unread (it took the
+    # first match of a query and is done): normal exit -> release, exit by error -> abort, with
+    # 70-400 responses of the peer waiting for a user that will never take them
+    for i in range(24 if tier == 'quick' else 800):
+        yield dict(kind='exit-with-unread-results', nrsp=rnd.choice([70, 130, 400]),
+                   exc=bool(i % 2), read=rnd.choice([1, 1, 3]), seed=seed * 37 + i)
     points = ['before', 'between', 'during']
     m = 3000 if tier == 'quick' else 100000
     for i in range(m):
@@ -227,6 +233,71 @@ def run_case(case):
             elif (e.source, e.reason_diag) != (src, rsn):
                 v('abort-fields-not-preserved', 'peer sent (%d,%d) surfaced %r' % (
                     src, rsn, (e.source, e.reason_diag)))
+            return _fin(world, viol, case, wire)
+        if kind == 'exit-with-unread-results':
+            FIND_ = '1.2.840.10008.5.1.4.1.2.1.1'
+
+            def on_msg8(peer, m):
+                if m['fields'].get(0x0100) != 0x0020:
+                    return
+                for j in range(case['nrsp']):
+                    peer.send_message(m['pcid'], {0x0002: FIND_, 0x0100: 0x8020,
+                                                  0x0120: m['fields'].get(0x0110), 0x0800: 1,
+                                                  0x0900: 0xFF00},
+                                      b'\x10\x00\x10\x00\x08\x00\x00\x00' + b'M%07d' % j)
+                peer.send_message(m['pcid'], {0x0002: FIND_, 0x0100: 0x8020,
+                                              0x0120: m['fields'].get(0x0110), 0x0800: 0x0101,
+                                              0x0900: 0})
+            seen8 = []
+
+            def factory8(sock):
+                sock.peer.on_send = lambda s_, b: seen8.append(b)
+                return peers.ScriptedAcceptor(world.sim, sock, on_message=on_msg8)
+            world.serve_peer(ADDR, factory8)
+            cli.add_scu(sopclass.qr_find_scu)
+            cli.timeout = 30.0
+            got = {'n': 0}
+
+            class Leave(Exception):
+                pass
+
+            def user8():
+                try:
+                    with cli.request_association(remote) as assoc:
+                        q = pydicom.Dataset()
+                        q.PatientName = '*'
+                        for d, st in assoc.get_scu(FIND_)(q, 5):
+                            got['n'] += 1
+                            if got['n'] >= case['read']:
+                                break
+                        # (the provider thread goes on receiving what the peer has sent)
+                        world.sim.sleep(1.0)
+                        if case['exc']:
+                            raise Leave()
+                    got['left'] = 'normally'
+                except Leave:
+                    got['left'] = 'by-error'
+                except Exception as e:  # pylint: disable=broad-except
+                    got['exc'] = e
+            ut8 = world.spawn(user8, 'user')
+            world.run(tmax=900)
+            world.drain(5.0)
+            asceprovider.Association._get_dul_message = orig
+            pdus8, _ = rc.parse_stream(b''.join(seen8))
+            kinds8 = [p_['kind'] for p_ in pdus8 if p_['kind'] != 'P-DATA-TF'][1:]
+            how = 'by-error' if case['exc'] else 'normally'
+            if not ut8.done:
+                v('user-never-gets-out-of-the-association exit=%s' % how,
+                  '%d responses unread; blocked %r' % (case['nrsp'] - got['n'],
+                                                       world.sim.blocked_report()))
+            elif 'exc' in got and not case['exc'] and not isinstance(
+                    got['exc'], exceptions.NetDICOMError):
+                v('exit-raised-non-library-error', repr(got['exc']))
+            want8 = 'A-ABORT' if case['exc'] else 'A-RELEASE-RQ'
+            if kinds8[:1] != [want8]:
+                v('exit-%s-not-signalled-to-peer' % how,
+                  'left %s with %d of %d responses unread; peer saw %r, expected %s' % (
+                      how, case['nrsp'] + 1 - got['n'], case['nrsp'] + 1, kinds8, want8))
             return _fin(world, viol, case, wire)
         if kind == 'peer-ends-between-exchanges':
             # the peer aborts (or asks for release) while the user is between two exchanges:
